@@ -601,6 +601,49 @@ def check_tables(facts, rep, crate):
         rep.bad("C09.R5", "OpCode/from-payload", "", "From<&Payload> for OpCode not found")
 
 
+def check_constructors(facts, rep, crate):
+    """Every public Frame::new_* constructor puts each of its parameters into the frame as it is."""
+    rid = "C09.R8"
+    rep.rule(rid, "frame constructors are exact: each field of the frame built by Frame::new_* is the corresponding parameter itself (through moves "
+                  "and wrapper constructors only) - a constructor that masks, clamps or offsets an id / count / port / window builds a frame "
+                  "that does not say what its caller said")
+    n = 0
+    for b in crate.bodies:
+        if b.kind != "AssocFn" or not b.name.startswith("new_") or "frame::Frame" not in str((b.j.get("impl_self") or {}).get("s", "")):
+            continue
+        if "::tests::" in b.path:
+            continue
+        n += 1
+        rep.analysed(b)
+        tr = Tracer(facts, b)
+        where = "%s (%s)" % (loc_str(b.loc), b.path)
+        bad = []
+
+        def leafs(node, fname, depth=0):
+            x = strip(node)
+            while x.kind in ("ref", "deref") and depth < 8:
+                x = strip(x[1])
+                depth += 1
+            if x.kind == "agg" and x[1] in ("adt", "tuple", "array"):
+                for f, v in x[3]:
+                    leafs(v, "%s.%s" % (fname, f) if fname else f, depth + 1)
+                return
+            if x.kind == "phi":
+                for a in x[1]:
+                    leafs(a, fname, depth + 1)
+                return
+            steps = inexact_steps(x, lambda y: y.kind == "param", None, extra_calls=("len", "iter", "collect", "map", "sum", "as_ptr"))
+            if steps:
+                bad.append((fname, steps[0]))
+        leafs(tr.local(0), "")
+        if bad:
+            rep.bad(rid, "constructor/%s" % b.name, where,
+                    "Frame::%s does not store its argument as it is: field `%s` is `%s`" % (b.name, bad[0][0], bad[0][1]))
+        else:
+            rep.ok(rid, "constructor/%s" % b.name, where, "every field is a parameter (moves / wrappers only)")
+    rep.floor(rid, "frame constructors", n, 8)
+
+
 def check_append(facts, rep, crate):
     rep.rule("C09.R7", "append_push_data checks the low nibble for Push and only appends the data at the end")
     bs = [b for b in crate.bodies if b.name == "append_push_data" and b.kind == "Fn"]
@@ -714,6 +757,7 @@ def check(facts, rep, tier, cfg):
     check_len(facts, rep, crate)
     check_tables(facts, rep, crate)
     check_append(facts, rep, crate)
+    check_constructors(facts, rep, crate)
     cross_check_docs(rep)
     rep.rule("C09.S7", "no new process-wide mutable state (static cell / lock / once-cell) in the files this property is anchored in")
     import whomay
